@@ -297,7 +297,14 @@ func (gb *genBatch) generate() {
 		if filepath.Base(files[0]) != p.pkgName+".go" {
 			gb.viol(p, "output-files", "file %s does not carry the package name %s", filepath.Base(files[0]), p.pkgName)
 		}
-		// determinism
+		// determinism; every other program is generated over the output of an earlier, longer run (the same file name
+		// holding these bytes plus 6 KiB more): the result is one file with the same bytes all the same
+		stale := i%2 == 0
+		if stale {
+			old := append(append([]byte{}, src...), bytes.Repeat([]byte("// left over from an earlier, longer output of the generator\nvar _ = 0 +\n"), 80)...)
+			os.WriteFile(filepath.Join(dir2, p.pkgName+".go"), old, 0644)
+			gb.r.Count("runs_over_an_existing_longer_output", 1)
+		}
 		out2, err2 := goRun(dir2, 60*time.Second, gb.gen, filepath.Join(dir2, "x.varlink"))
 		files2, _ := filepath.Glob(filepath.Join(dir2, "*.go"))
 		if err2 != nil || len(files2) != 1 {
@@ -306,7 +313,7 @@ func (gb *genBatch) generate() {
 		}
 		src2, _ := os.ReadFile(files2[0])
 		if !bytes.Equal(src, src2) {
-			gb.viol(p, "nondeterministic", "two runs on the same input produced different bytes (%d vs %d bytes)", len(src), len(src2))
+			gb.viol(p, "nondeterministic", "two runs on the same input produced different bytes (%d vs %d bytes; second run over an existing longer output file: %v)", len(src), len(src2), stale)
 		}
 		gb.r.Count("deterministic_pairs", 1)
 	})
@@ -861,7 +868,7 @@ func replayGen(prop string) func(r *fw.Run, raw json.RawMessage) {
 func init() {
 	fw.Register(&fw.Engine{
 		ID: "C07", Level: "translation_validation",
-		Rule: "programs = interface descriptions in the stated domain: 23 fixed special cases (typeless errors, dashes / upper case / xn-- / digits in the interface name, optional struct / optional array-of-struct / optional map-of-struct at parameter positions, CRLF and tab layouts, doc comments with backticks and with the words the import patcher looks for, all Go keywords and generator-local identifiers as field names, recursive aliases through containers, object everywhere, enums, 60 members), every type of nesting depth <= 2 over all constructors placed at method input, method output, error parameter, alias body and nested positions (quick: 60 seeded picks, thorough: all 1130), and seeded random descriptions (<= 20 members, depth <= 5) in 4 layouts. For each: the generator binary built from the tree under test runs twice in separate directories (exit status, stderr, one output file, package clause is the lower-cased interface name without characters illegal in a Go identifier, byte-identical second run); all outputs are compiled together with glue in one batch module against the tree's varlink package (go build, diagnostics attributed per package, failing packages dropped and the rest rebuilt); the batch binary reports VarlinkGetName() and VarlinkGetDescription() of every package, compared with the interface name and (up to trailing newlines) the description text. non-trivial = >= 2 members or a composite type; distinct by hash of the text. Further fixed cases: aliases of object (also forward references), aliases of builtins, 14-field lists, member names built from other member names with common prefixes.",
+		Rule: "programs = interface descriptions in the stated domain: 23 fixed special cases (typeless errors, dashes / upper case / xn-- / digits in the interface name, optional struct / optional array-of-struct / optional map-of-struct at parameter positions, CRLF and tab layouts, doc comments with backticks and with the words the import patcher looks for, all Go keywords and generator-local identifiers as field names, recursive aliases through containers, object everywhere, enums, 60 members), every type of nesting depth <= 2 over all constructors placed at method input, method output, error parameter, alias body and nested positions (quick: 60 seeded picks, thorough: all 1130), and seeded random descriptions (<= 20 members, depth <= 5) in 4 layouts. For each: the generator binary built from the tree under test runs twice in separate directories (exit status, stderr, one output file, package clause is the lower-cased interface name without characters illegal in a Go identifier, byte-identical second run (every other one over an existing, longer output file of the same name)); all outputs are compiled together with glue in one batch module against the tree's varlink package (go build, diagnostics attributed per package, failing packages dropped and the rest rebuilt); the batch binary reports VarlinkGetName() and VarlinkGetDescription() of every package, compared with the interface name and (up to trailing newlines) the description text. non-trivial = >= 2 members or a composite type; distinct by hash of the text. Further fixed cases: aliases of object (also forward references), aliases of builtins, 14-field lists, member names built from other member names with common prefixes.",
 		Assumptions: []string{"the Go compiler is the oracle of 'compiles and type-checks'", "member names follow [A-Z][A-Za-z0-9]* and avoid the generator's fixed identifiers and Reply*/Dispatch* prefixes; field names are distinct after Go's exported-name mapping except in the fixed special case that probes exactly that"},
 		Run:         runC07, Replay: replayGen("C07"), CrashIsViolation: false, MinEvals: 20,
 		QuickTimeout: 20 * time.Minute, ThoroughTimeout: 90 * time.Minute,
